@@ -60,7 +60,7 @@ TReturn == /\ Ev("Return") /\ At /\ Finish /\ Consume
            /\ out'.ok = Trace[l].ok
            /\ (out'.ok => HopsMatch(out'.hops, Trace[l].hops))
            /\ (~out'.ok => (out'.err = "canceled" <=> Trace[l].err.canceled))
-Silent == (SCheck \/ SWake \/ RStart \/ RLoop \/ TimeoutFire \/ ExtCancel \/ Advance) /\ UNCHANGED l
+Silent == (SPublish \/ RPublish \/ SCheck \/ SWake \/ RStart \/ RLoop \/ TimeoutFire \/ ExtCancel \/ Advance) /\ UNCHANGED l
 
 \* a scripted reply that becomes readable at the very instant the run has ended (the driver's timers are stopped only after
 \* the engine has returned): nothing reads it any more
